@@ -1,12 +1,212 @@
 /-
 C07 property theorems. Only statements of the property + non-vacuity examples live here;
-helper lemmas are in Lemmas.lean.
+helper lemmas are in SerLemmas / ScriptLemmas / Lemmas / Commit / CacheLemmas.
+`H` is single SHA-256, abstract: every theorem holds for any function in its place.
 -/
-import BV.C07.Spec
-import BV.C07.Model
+import BV.C07.Lemmas
+import BV.C07.ScriptLemmas
+import BV.C07.Commit
+import BV.C07.CacheLemmas
 import BV.Generated.C07
 namespace BV.C07
-open Spec
+open Spec Model
+
+/-! ### model = spec: the digests btcd computes are the ones the specifications define -/
+
+/-- Legacy, exported entry point `CalcSignatureHash`: for every script (parsing or not), every 32-bit
+hash type, every transaction and every valid input index, the result is the Spec digest: code
+separators removed at opcode boundaries, the SIGHASH_SINGLE constant, NONE/SINGLE/ANYONECANPAY. -/
+theorem legacy_model_eq_spec (H : Bytes → Bytes) (script : Bytes) (ht : UInt32) (tx : Tx) (idx : Nat)
+    (hi : idx < tx.ins.length) :
+    CalcSignatureHash H script ht tx idx = Lemmas.outOfOpt (legacySigHash H script ht tx idx) := by
+  unfold CalcSignatureHash legacySigHash
+  cases hp : parses script
+  · have : parse script = none := by simp [parse, parses] at hp ⊢; simp [hp]
+    simp [stripOp, this, Lemmas.outOfOpt]
+  · rw [Lemmas.removeOpcodeRaw_eq_stripOp script OP_CODESEPARATOR hp]
+    simp only [Bool.not_true, Bool.false_eq_true, if_false, calcSignatureHash]
+    exact Lemmas.legacy_core_eq_spec H _ ht tx idx hi
+
+/-- Legacy, the unexported `calcSignatureHash` the interpreter calls (scripts were parsed before). -/
+theorem legacy_raw_model_eq_spec (H : Bytes → Bytes) (script : Bytes) (ht : UInt32) (tx : Tx)
+    (idx : Nat) (hi : idx < tx.ins.length) (hp : parses script = true) :
+    calcSignatureHash H script ht tx idx = Lemmas.outOfOpt (legacySigHash H script ht tx idx) := by
+  have := legacy_model_eq_spec H script ht tx idx hi
+  simpa [CalcSignatureHash, hp] using this
+
+/-- The SIGHASH_SINGLE quirk, stated: without a matching output the digest is the constant 1
+whatever the transaction, the script and the remaining hash type bits are. -/
+theorem legacy_single_bug (H : Bytes → Bytes) (sc : Bytes) (ht : UInt32) (tx : Tx) (idx : Nat)
+    (hi : idx < tx.ins.length) (hs : isSingle ht = true) (ho : tx.outs.length ≤ idx) :
+    legacyDigest H sc ht tx idx = some Spec.oneHash := by
+  simp [legacyDigest, legacyMsg, List.getElem?_eq_getElem hi, hs, ho, legacyDigestOf]
+
+/-- btcd's offset-based `removeOpcodeRaw` = removal of the opcode at token level. -/
+theorem removeOpcodeRaw_eq_spec (s : Bytes) (op : UInt8) (h : parses s = true) :
+    stripOp op s = some (removeOpcodeRaw s op) := Lemmas.removeOpcodeRaw_eq_stripOp s op h
+
+/-- btcd's `removeOpcodeByData` = FindAndDelete of canonical pushes of the signature. -/
+theorem removeOpcodeByData_eq_spec (s sig : Bytes) (h : parses s = true) :
+    findAndDelete s sig = some (removeOpcodeByData s sig) :=
+  Lemmas.removeOpcodeByData_eq_findAndDelete s sig h
+
+/-- BIP143 with the midstates of `NewTxSigHashes`, provided they were computed for a transaction
+with at least one non-taproot input (`hasV0Inputs`, which holds whenever the signed input is v0). -/
+theorem wit_model_eq_spec (H : Bytes → Bytes) (sub : Bytes) (ht : UInt32) (tx : Tx)
+    (fetch : OutPoint → TxOut) (idx : Nat) (amt : UInt64)
+    (hv0 : (scanInputs fetch tx.ins false false).1 = true) :
+    calcWitnessSignatureHashRaw H sub (newTxSigHashes H tx fetch) ht tx idx amt =
+      Lemmas.outOfOpt (bip143Digest H (witScriptCode sub) ht tx idx amt) := by
+  rw [Lemmas.wit_cache_eq_nocache H sub ht tx fetch idx amt hv0]
+  exact Lemmas.wit_fresh_eq_spec H sub ht tx fetch idx amt
+
+/-- BIP341/342 with the midstates of `NewTxSigHashes` (computed with at least one taproot input),
+every hash type (invalid ones are errors), annex, tapscript extension with any code separator
+position. The Go options always set key version 0. -/
+theorem tap_model_eq_spec (H : Bytes → Bytes) (ht : UInt32) (tx : Tx) (fetch : OutPoint → TxOut)
+    (idx : Nat) (annex : Option Bytes) (ext : Option TapExt)
+    (hk : ∀ e, ext = some e → e.keyVersion = 0)
+    (hv1 : (scanInputs fetch tx.ins false false).2 = true) :
+    calcTaprootSignatureHashRaw H (newTxSigHashes H tx fetch) ht tx idx fetch
+        (mkOpts H annex (ext.map (fun e => (e.leafHash, e.codeSepPos)))) =
+      Lemmas.outOfExcept (bip341Digest H ht tx (tx.ins.map (fun i => fetch i.prev)) idx annex ext) := by
+  rw [Lemmas.tap_cache_eq_nocache H ht tx fetch idx _ hv1]
+  exact Lemmas.tap_fresh_eq_spec H ht tx fetch idx annex ext hk
+
+/-- the taproot digest is defined exactly for hash types {0,1,2,3,0x81,0x82,0x83} -/
+theorem taproot_hashtype_valid_iff (ht : UInt32) :
+    isValidTaprootSigHash ht = true ↔ ht ∈ validTaprootHashTypes := Lemmas.valid_iff ht
+
+/-! ### cache = no cache -/
+
+/-- BIP143 digest with precomputed midstates = digest with every midstate computed from scratch. -/
+theorem cache_eq_nocache_wit (H : Bytes → Bytes) (sub : Bytes) (ht : UInt32) (tx : Tx)
+    (fetch : OutPoint → TxOut) (idx : Nat) (amt : UInt64)
+    (hv0 : (scanInputs fetch tx.ins false false).1 = true) :
+    calcWitnessSignatureHashRaw H sub (newTxSigHashes H tx fetch) ht tx idx amt =
+      calcWitnessSignatureHashRaw H sub (freshSigHashes H tx fetch) ht tx idx amt :=
+  Lemmas.wit_cache_eq_nocache H sub ht tx fetch idx amt hv0
+
+theorem cache_eq_nocache_tap (H : Bytes → Bytes) (ht : UInt32) (tx : Tx)
+    (fetch : OutPoint → TxOut) (idx : Nat) (o : TaprootSigHashOptions)
+    (hv1 : (scanInputs fetch tx.ins false false).2 = true) :
+    calcTaprootSignatureHashRaw H (newTxSigHashes H tx fetch) ht tx idx fetch o =
+      calcTaprootSignatureHashRaw H (freshSigHashes H tx fetch) ht tx idx fetch o :=
+  Lemmas.tap_cache_eq_nocache H ht tx fetch idx o hv1
+
+/-- the side conditions hold whenever the input being signed is of the matching kind: the
+classification loop (with its `continue` and early `break`) finds it -/
+theorem midstate_present_for_signed_input (fetch : OutPoint → TxOut) (tx : Tx) (idx : Nat)
+    (inp : TxIn) (hi : tx.ins[idx]? = some inp) :
+    (Lemmas.isV0Input fetch inp = true → (scanInputs fetch tx.ins false false).1 = true) ∧
+    (Lemmas.isV1Input fetch inp = true → (scanInputs fetch tx.ins false false).2 = true) := by
+  rw [Lemmas.hasV0_iff, Lemmas.hasV1_iff]
+  have hm := Commit.mem_of_getElem? hi
+  constructor <;> intro h <;> exact List.any_eq_true.mpr ⟨inp, hm, h⟩
+
+/-- ...and are needed: midstates computed for a transaction without v0 inputs carry zero V0 hashes
+(an API precondition of `NewTxSigHashes`, not reachable from the interpreter) -/
+theorem midstate_v0_absent (H : Bytes → Bytes) (tx : Tx) (fetch : OutPoint → TxOut)
+    (h : (scanInputs fetch tx.ins false false).1 = false) :
+    (newTxSigHashes H tx fetch).hashPrevOutsV0 = zero32 ∧
+    (newTxSigHashes H tx fetch).hashSequenceV0 = zero32 ∧
+    (newTxSigHashes H tx fetch).hashOutputsV0 = zero32 := by
+  simp [newTxSigHashes, h]
+
+/-- HashCache is a map: what `AddSigHashes` stored is what `GetSigHashes` returns, other
+transactions are unaffected, `PurgeSigHashes` removes. -/
+theorem hashcache_laws (c : HashCache) (txid t : Bytes) (s : SigHashes) :
+    (c.add txid s).get txid = some s ∧ (t ≠ txid → (c.add txid s).get t = c.get t) ∧
+    (c.purge txid).get txid = none :=
+  ⟨CacheLemmas.hashCache_get_add c txid s, CacheLemmas.hashCache_get_add_ne c txid t s,
+   CacheLemmas.hashCache_get_purge c txid⟩
+
+/-! ### commits to exactly the specified data -/
+
+/-- two signing contexts that agree on the committed fields have the same legacy message
+(including the degenerate SIGHASH_SINGLE case) -/
+theorem independent_of_uncommitted_legacy (sc : Bytes) (ht : UInt32) (idx : Nat) (c₁ c₂ : Ctx)
+    (h : AgreeOn (legacyCommitted ht idx) c₁ c₂) :
+    legacyMsgC sc ht idx c₁ = legacyMsgC sc ht idx c₂ := Commit.legacy_independent sc ht idx c₁ c₂ h
+
+theorem independent_of_uncommitted_bip143 (H : Bytes → Bytes) (sc : Bytes) (ht : UInt32) (idx : Nat)
+    (c₁ c₂ : Ctx) (h : AgreeOn (bip143Committed ht idx) c₁ c₂) :
+    bip143MsgC H sc ht idx c₁ = bip143MsgC H sc ht idx c₂ :=
+  Commit.bip143_independent H sc ht idx c₁ c₂ h
+
+theorem independent_of_uncommitted_bip341 (H : Bytes → Bytes) (ht : UInt32) (idx : Nat)
+    (annex : Option Bytes) (ext : Option TapExt) (c₁ c₂ : Ctx)
+    (h : AgreeOn (bip341Committed ht idx) c₁ c₂) :
+    bip341MsgC H ht idx annex ext c₁ = bip341MsgC H ht idx annex ext c₂ :=
+  Commit.bip341_independent H ht idx annex ext c₁ c₂ h
+
+/-- equal BIP143 messages ⇒ agreement on every committed field, given that the inner double-SHA256
+has no collision among (and no zero image on) the strings hashed for these two transactions -/
+theorem injective_on_committed_bip143 (H : Bytes → Bytes) (sc : Bytes) (ht : UInt32) (idx : Nat)
+    (c₁ c₂ : Ctx) (w₁ : c₁.wf) (w₂ : c₂.wf)
+    (hok : HashOK (dH H) (bip143Hashed idx c₁.tx ++ bip143Hashed idx c₂.tx))
+    (m : Bytes) (h₁ : bip143MsgC H sc ht idx c₁ = some m) (h₂ : bip143MsgC H sc ht idx c₂ = some m) :
+    AgreeOn (bip143Committed ht idx) c₁ c₂ :=
+  Commit.bip143_injective H sc ht idx c₁ c₂ w₁ w₂ hok m h₁ h₂
+
+theorem injective_on_committed_bip341 (H : Bytes → Bytes) (ht : UInt32) (idx : Nat)
+    (annex : Option Bytes) (ext : Option TapExt) (c₁ c₂ : Ctx) (w₁ : c₁.wf) (w₂ : c₂.wf)
+    (hok : HashOK H (bip341Hashed idx c₁ ++ bip341Hashed idx c₂))
+    (m : Bytes) (h₁ : bip341MsgC H ht idx annex ext c₁ = .ok m)
+    (h₂ : bip341MsgC H ht idx annex ext c₂ = .ok m) :
+    AgreeOn (bip341Committed ht idx) c₁ c₂ :=
+  Commit.bip341_injective H ht idx annex ext c₁ c₂ w₁ w₂ hok m h₁ h₂
+
+/-- lifting to digests: `H_inj` = the outer hash does not collide on the two messages -/
+theorem digest_commits_bip143 (H : Bytes → Bytes) (sc : Bytes) (ht : UInt32) (idx : Nat)
+    (c₁ c₂ : Ctx) (w₁ : c₁.wf) (w₂ : c₂.wf)
+    (hok : HashOK (dH H) (bip143Hashed idx c₁.tx ++ bip143Hashed idx c₂.tx))
+    (m₁ m₂ : Bytes) (h₁ : bip143MsgC H sc ht idx c₁ = some m₁) (h₂ : bip143MsgC H sc ht idx c₂ = some m₂)
+    (H_inj : dH H m₁ = dH H m₂ → m₁ = m₂) (hd : dH H m₁ = dH H m₂) :
+    AgreeOn (bip143Committed ht idx) c₁ c₂ := by
+  have := H_inj hd; subst this
+  exact Commit.bip143_injective H sc ht idx c₁ c₂ w₁ w₂ hok m₁ h₁ h₂
+
+theorem digest_commits_bip341 (H : Bytes → Bytes) (ht : UInt32) (idx : Nat)
+    (annex : Option Bytes) (ext : Option TapExt) (c₁ c₂ : Ctx) (w₁ : c₁.wf) (w₂ : c₂.wf)
+    (hok : HashOK H (bip341Hashed idx c₁ ++ bip341Hashed idx c₂))
+    (m₁ m₂ : Bytes) (h₁ : bip341MsgC H ht idx annex ext c₁ = .ok m₁)
+    (h₂ : bip341MsgC H ht idx annex ext c₂ = .ok m₂)
+    (H_inj : taggedH H Spec.tapSighashTag m₁ = taggedH H Spec.tapSighashTag m₂ → m₁ = m₂)
+    (hd : taggedH H Spec.tapSighashTag m₁ = taggedH H Spec.tapSighashTag m₂) :
+    AgreeOn (bip341Committed ht idx) c₁ c₂ := by
+  have := H_inj hd; subst this
+  exact Commit.bip341_injective H ht idx annex ext c₁ c₂ w₁ w₂ hok m₁ h₁ h₂
+
+/-! ### signature cache -/
+
+/-- Over any history of checks against one cache (any capacity, any eviction choices), an answer
+"valid" -- cache hit or not -- implies that the real verification `V` accepts the triple. -/
+theorem sigcache_sound (V : Bytes → Bytes → Bytes → Bool) (maxEntries : Nat) (rs : List SigReq) :
+    ∀ x ∈ runVerify V (SigCache.new maxEntries) rs, x.2 = true →
+      V x.1.sigHash x.1.sig x.1.pubKey = true :=
+  CacheLemmas.runVerify_sound V rs _ (CacheLemmas.inv_new V maxEntries)
+
+/-- and the cache never turns a passing check into a failure -/
+theorem sigcache_complete (V : Bytes → Bytes → Bytes → Bool) (c : SigCache) (r : SigReq)
+    (hv : V r.sigHash r.sig r.pubKey = true) : (verifySig V c r).1 = true :=
+  CacheLemmas.verifySig_complete V c r hv
+
+/-! ### non-vacuity of the hypotheses -/
+
+def exCtx : Ctx :=
+  ⟨⟨1, [⟨⟨List.replicate 32 7, 0⟩, [], 0xffffffff, []⟩], [⟨5, [0x51]⟩], 0⟩, [⟨9, [0x52]⟩]⟩
+/-- a 32-byte-output function without collisions on the strings of `exCtx` -/
+def exH (b : Bytes) : Bytes := (b ++ List.replicate 32 1).take 32
+
+example : exCtx.wf := by decide
+example : HashOK (dH exH) (bip143Hashed 0 exCtx.tx ++ bip143Hashed 0 exCtx.tx) :=
+  ⟨by decide, by decide, by decide⟩
+example : HashOK exH (bip341Hashed 0 exCtx ++ bip341Hashed 0 exCtx) :=
+  ⟨by decide, by decide, by decide⟩
+example : (bip143MsgC exH [0xac] 1 0 exCtx).isSome = true := by decide
+example : ∃ m, bip341MsgC exH 0 0 none none exCtx = .ok m := ⟨_, rfl⟩
+example : (scanInputs (fun _ => ⟨0, []⟩) exCtx.tx.ins false false).1 = true := by decide
 
 /-! ### pinning of regenerated facts (T2): a changed constant in /repo breaks these -/
 
@@ -24,8 +224,8 @@ theorem pin_taproot_consts :
     Generated.C07.opCodeSeparator = OP_CODESEPARATOR.toNat := by decide
 
 theorem pin_tagTapSighash :
-    Generated.C07.tagTapSighash = tapSighashTag.map (fun x => (x.toNat : Int)) ∧
-    Model.tapSighashTag = tapSighashTag := by decide
+    Generated.C07.tagTapSighash = Spec.tapSighashTag.map (fun x => (x.toNat : Int)) ∧
+    Model.tapSighashTag = Spec.tapSighashTag := by decide
 
 /-- the hash types `calcTaprootSignatureHashRaw` accepts, over the whole byte range -/
 theorem pin_validTaprootSigHashes :
